@@ -50,6 +50,12 @@ def make_script(r, proto, rounds):
     steps = []
     for side, W, R in rounds:
         other = "s" if side == "c" else "c"
+        if W == 0:
+            # one send call with an empty buffer: refused by tls_send, an empty record for tls13_send
+            steps.append("e%s0" % side)
+            if proto == "tls13":
+                steps.append("r%s%d" % (other, R))
+            continue
         steps.append("w%s%d" % (side, W))
         nreads = 0
         for rec in chunks_of_write(proto, W):
@@ -81,6 +87,10 @@ def hs_cases(ctx):
                     rounds = []
                     for j, (w, rd) in enumerate(combos[i:i + per]):
                         rounds.append(("c" if (i + j) % 2 == 0 else "s", w, rd))
+                    # empty sends in both directions, in the middle and at the end of the script
+                    rounds.insert(r.below(len(rounds) + 1), ("c", 0, r.choice([1, 7, 16384])))
+                    rounds.insert(r.below(len(rounds) + 1), ("s", 0, r.choice([1, 7, 16384])))
+                    rounds.append((r.choice("cs"), 0, 7)); rounds.append((r.choice("cs"), r.range(1, 300), 20000))
                     scripts.append(make_script(r, proto, rounds))
                     if not thorough and len(scripts) >= 5:
                         break
